@@ -174,6 +174,17 @@ pub fn gen(app: App, flavor: Flavor, over_tcp: bool, rng: &mut Rng) -> Vec<u8> {
             }
             v
         }
+        (App::Smb1, Flavor::Valid) | (App::Smb2, Flavor::Valid) if rng.chance(1, 10) => {
+            // two NetBIOS session messages in one go: the first one is the request of this segment
+            let mut v = gen(app, Flavor::Valid, over_tcp, rng);
+            let w = match rng.below(4) {
+                0 => smb::gen_fault(rng),
+                1 => gen(if rng.chance(1, 2) { App::Smb1 } else { App::Smb2 }, Flavor::Valid, over_tcp, rng),
+                _ => gen(app, Flavor::Valid, over_tcp, rng),
+            };
+            v.extend_from_slice(&w);
+            v
+        }
         (App::Smb1, Flavor::Valid) => {
             if rng.chance(1, 2) {
                 smb::gen_smb1_negotiate(rng)
@@ -200,6 +211,7 @@ pub fn gen(app: App, flavor: Flavor, over_tcp: bool, rng: &mut Rng) -> Vec<u8> {
                 break v;
             }
         },
+        (App::Smb1, Flavor::Hostile) if rng.chance(1, 4) => smb::gen_smb1_session_setup_wc13(rng),
         (App::Smb1, Flavor::Hostile) | (App::Smb2, Flavor::Hostile) => {
             let mut v = gen(app, Flavor::Valid, over_tcp, rng);
             match rng.below(3) {
